@@ -18,7 +18,7 @@ MANIFEST = {
             'decoder types contain no interior mutability; (D5) the ISO-2022-JP validator\'s reject set {>=80, 0E, 0F, 1B} is extracted exactly '
             'and equals the complement of what the ISO-2022-JP decoder passes through unchanged in its ASCII state (and of what the encoder '
             'passes through) — what makes n exact for ISO-2022-JP. Exactness of n inside long ASCII runs depends on the stride bookkeeping of '
-            'the validators (C14) and is not decided here. (D3.exact) in_neutral_state answers true only in the state the constructor builds: on every path to `true` each test pins one state field to exactly its value in `new()` (is_none with None, == 0 with 0, == Ascii with Ascii, a false flag), so a test that also holds for another value (`lead.unwrap_or(0) == 0`) is reported. (D2.single, corrected after defect F7) the single-byte loop returns total + rest.len() when the rest is all ASCII, total + offset at the first byte that decodes to something else. (R-INV.escape-reset) the ISO-2022-JP decoder clears lead on every path on which an escape sequence is recognised, early returns included, so that in_neutral_state() answers for the state the decoder is really in.',
+            'the validators (C14) and is not decided here. (D3.exact) in_neutral_state answers true only in the state the constructor builds: on every path to `true` each test pins one state field to exactly its value in `new()` (is_none with None, == 0 with 0, == Ascii with Ascii, a false flag), so a test that also holds for another value (`lead.unwrap_or(0) == 0`) is reported. (D2.single, corrected after defect F7) the single-byte loop returns total + rest.len() when the rest is all ASCII, total + offset at the first byte that decodes to something else. (R-INV.escape-reset) the ISO-2022-JP decoder clears lead on every path on which an escape sequence is recognised, early returns included, so that in_neutral_state() answers for the state the decoder is really in. Also run here: R-KERNEL over the ASCII/UTF-8 validation kernels (ascii_valid_up_to and the stride loops behind it in every configuration), whose result is the answer for every ASCII-compatible encoding in the neutral state.',
     'note': 'Trusted: rustc MIR/type information (Freeze), mirx, rule library.',
     'technique': 'path summaries over MIR + exact interval extraction (validator vs decoder classes) + reference-kind / Freeze check over the call graph',
 }
@@ -527,4 +527,6 @@ def run(rep, facts, tier):
         d4(rep, f, c)
         d5(rep, f, c)
         r_inv.escape_reset(rep, f, c, 'R-INV')
+        import r_kernel
+        r_kernel.run(rep, f, c, 'R-KERNEL', ['validate'])     # ascii_valid_up_to & co.: the answer for every ASCII-compatible encoding in the neutral state
     return ('other', MANIFEST['text'], [])
